@@ -1292,7 +1292,10 @@ pub fn configs(prop: SProp, tier: Tier) -> Vec<SCfg> {
                         for fin in [false, true] {
                             let mut r = ReqCfg::simple(0, fin);
                             r.deadline_ms = *d0;
-                            out.push(base(vec![r], limit, 1, *fl, *cap, alpha));
+                            out.push(base(vec![r.clone()], limit, 1, *fl, *cap, alpha));
+                            let mut c = base(vec![r], limit, 1, *fl, *cap, alpha);
+                            c.route = Route::Execute;
+                            out.push(c);
                         }
                         for d1 in [1i64, 50, 10_000] {
                             if !thorough && *d0 > 1000 {
@@ -1441,8 +1444,13 @@ pub fn configs(prop: SProp, tier: Tier) -> Vec<SCfg> {
                                 if rb == 2 && (n > 2 && !thorough) {
                                     continue;
                                 }
-                                let reqs = pol.iter().enumerate().map(|(i, f)| ReqCfg::simple(i as u64, *f)).collect();
-                                out.push(base(reqs, Some(l), rb, *fl, *cap, alpha));
+                                let reqs: Vec<ReqCfg> = pol.iter().enumerate().map(|(i, f)| ReqCfg::simple(i as u64, *f)).collect();
+                                out.push(base(reqs.clone(), Some(l), rb, *fl, *cap, alpha));
+                                if n <= 3 && rb == 1 {
+                                    let mut c = base(reqs, Some(l), rb, *fl, *cap, alpha);
+                                    c.route = Route::Execute;
+                                    out.push(c);
+                                }
                             }
                         }
                     }
